@@ -168,6 +168,7 @@ def run_unit(copy, u, use_cache=True):
         return {"verdict": "undecided", "reason": "driver judge printed no JSON: " + r.stdout[-300:], "cached": False}
     out = {"verdict": "pass" if not res["mismatches"] and res["evaluated"] > 0 else ("fail" if res["mismatches"] else "undecided"),
            "evaluated": res["evaluated"], "mismatches": res["mismatches"][:25], "mismatch_count": res.get("mismatch_count", len(res["mismatches"])),
+           "all_inputs": res.get("all_inputs"),
            "time_s": round(time.time() - t0, 1), "cached": False}
     if out["verdict"] == "undecided":
         out["reason"] = "native unit %s evaluated nothing" % u["id"]
